@@ -96,6 +96,8 @@ class DiscreteTimeInterpreter(TimeInterpreter):
         return
 
     def update_sampling_violation_counter(self, duration):
+        # time-stamps are expressed in the default unit, the period in its own unit
+        duration = duration * self.ast.U[self.ast.unit] / self.U[self.sampling_period_unit]
         tolerance = self.sampling_period * self.sampling_tolerance
         if duration < self.sampling_period - tolerance or duration > self.sampling_period + tolerance:
             self.sampling_violation_counter = self.sampling_violation_counter + 1
